@@ -25,5 +25,20 @@ for nm, en, ti in (("tls13_expand_label", "h_expand_label", "tls13_hkdf_expand_l
     OBLIGATIONS.append({"id": "C08." + nm, "harness": "harness/C08/tls13label.c", "entry": en, "units": ["tls13.c", "tls.c"],
                         "remove": {"tls.c": ["tls_record_recv", "tls_record_send"]}, "unwind": 90, "timeout": 600,
                         "title": ti, "bounds": "label of 12 / 7 characters, context 5 / 32 bytes, L in {12, 16, 32}", "stubs": ["hkdf_expand: recorder", "digest_finish: arbitrary transcript hash"]})
+STREAM_RM = ["tls_record_recv", "tls_record_send", "tls_record_encrypt", "tls_record_decrypt"]
+def stream(name, entry, title, bounds, **kw):
+    d = {"id": "C08.stream." + name, "harness": "harness/C08/stream.c", "entry": entry, "units": ["tls.c", "tls_trace.c"], "remove": {"tls.c": STREAM_RM},
+         "shims": {"tls.c": ["@scaled_tls"], "tls_trace.c": ["@scaled_tls"], "harness/C08/stream.c": ["@scaled_tls"]}, "unwind": 45, "timeout": 600, "title": title,
+         "bounds": "size constants scaled in a regenerated copy of gmssl/tls.h (plaintext 16 bytes, record 37, TLS_CONNECT buffers accordingly, M6); " + bounds, "stubs": ["record layer (tls_record_recv / decrypt / encrypt / send): arbitrary outcome, logs its arguments"]}
+    d.update(kw)
+    return d
+STREAM = [
+    stream("recv_step", "h_recv_step", "tls_recv from any buffered state: delivers min(outlen, remaining) next bytes in order; reads one record only when nothing is buffered; only application data is delivered; right read keys",
+           "every buffered position, read buffers of 1..8 bytes, every record type / socket / protection outcome"),
+    stream("send", "h_send", "tls_send: one application_data record with the first min(inlen, max) caller bytes under this side's write keys and sequence number, which advances by one; refused while received data is buffered",
+           "writes of 1..20 bytes (max plaintext scaled to 16), all contents, every protection / socket outcome"),
+    stream("shutdown", "h_shutdown", "tls_shutdown protects and sends a close_notify alert first", "every outcome of the record layer"),
+]
+OBLIGATIONS += STREAM
 NOTE = ("C08 is claimed for the per-endpoint building blocks only: PRF structure, record protection round trip (from C11), full-size fragment acceptance, "
-        "in-order reassembly of short socket reads. NOT decided: the handshake drivers (not encodable, see DESIGN.md), two live endpoints, interleavings.")
+        "in-order reassembly of short socket reads, and the inductive step of tls_send / tls_recv (stream.c: any write / read chunking). NOT decided: the handshake drivers (not encodable, see DESIGN.md), two live endpoints, interleavings.")
